@@ -214,6 +214,54 @@ def gen_tree(rng, s0, depth, root=None, budget=None, profile='s'):
     return [kind, kids]
 
 
+def ser_meta(m):
+    def st(t):
+        if isinstance(t, dict):
+            d = dict(t)
+            d['coq'] = [None if x is None else fs(x) for x in t.get('coq', [])]
+            d['tb'] = [t['tb'][0], fs(t['tb'][1]), fs(t['tb'][2])]
+            return d
+        return [t[0], [st(c) for c in t[1]]]
+    out = {k: v for k, v in m.items() if k not in ('tree', 'tp', 's0', 'args')}
+    if 'tree' in m:
+        out['tree'] = st(m['tree'])
+    if 'tp' in m:
+        def sp(P):
+            if P[0] in ('Chain', 'Par2', 'Ser2', 'Hybrid2', 'InverseHybrid2'):
+                return [P[0], [sp(a) for a in P[1]]]
+            return [P[0], [st(a) for a in P[1]]]
+        out['tp'] = sp(m['tp'])
+    if 's0' in m:
+        out['s0'] = fs(m['s0'])
+    if 'args' in m:
+        out['args'] = [fs(a) for a in m['args']]
+    return out
+
+
+def deser_meta(m):
+    def dt(t):
+        if isinstance(t, dict):
+            d = dict(t)
+            d['coq'] = [None if x is None else F(x) for x in t.get('coq', [])]
+            d['tb'] = (t['tb'][0], F(t['tb'][1]), F(t['tb'][2]))
+            return d
+        return [t[0], [dt(c) for c in t[1]]]
+    out = dict(m)
+    if 'tree' in m:
+        out['tree'] = dt(m['tree'])
+    if 'tp' in m:
+        def dp(P):
+            if P[0] in ('Chain', 'Par2', 'Ser2', 'Hybrid2', 'InverseHybrid2'):
+                return [P[0], [dp(a) for a in P[1]]]
+            return [P[0], [dt(a) for a in P[1]]]
+        out['tp'] = dp(m['tp'])
+    if 's0' in m:
+        out['s0'] = F(m['s0'])
+    if 'args' in m:
+        out['args'] = [F(a) for a in m['args']]
+    return out
+
+
 def to_impl(t):
     if isinstance(t, dict):
         return [t['cls'], t['args']]
@@ -324,7 +372,7 @@ def parse_line(line, s0, order_params):
         toks.append(cur)
     name = toks[0]
     if name == 'W':
-        return '(EW (K:=QcF) %s %s)' % (toks[1], toks[2])
+        return '(EW (L:=lf QcF) %s %s)' % (toks[1], toks[2])
     m = re.match(r'^([A-Za-z]+?)(\d+|\?)$', name)
     if not m:
         raise ValueError('cannot parse ' + line)
@@ -514,7 +562,7 @@ def coq_tpB(P):
 
 
 # ---------------------------------------------------------------------------------------
-CASES_HDR = ('Require Import LT.FieldSec LT.OnePort LT.TwoPort LT.Sections Gen.OnePortGen Gen.C07model Gen.TwoPortGen Gen.SectionsGen.\n'
+CASES_HDR = ('Require Import LT.FieldSec LT.OnePort LT.OnePortNet LT.TwoPort LT.Sections Gen.OnePortGen Gen.C07model Gen.TwoPortGen Gen.SectionsGen.\n'
              'From Coq Require Import List Bool.\nImport ListNotations.\n'
              'Definition meq (a b : mat QcF) : bool := qc_eqb (m11 a) (m11 b) && qc_eqb (m12 a) (m12 b) && qc_eqb (m21 a) (m21 b) && qc_eqb (m22 a) (m22 b).\n')
 
@@ -547,7 +595,7 @@ CORPUS = [
 def run(tier='quick', replay=None):
     res = core.Result(PID, tier)
     rng = random.Random(core.seed() * 7919 + 7)
-    core.ensure_theory(['FieldSec', 'TwoPort', 'OnePort', 'Sections'] + (['OnePortNet'] if os.path.exists(os.path.join(core.COQ_THEORY, 'OnePortNet.v')) else []))
+    core.ensure_theory(['FieldSec', 'TwoPort', 'OnePort', 'OnePortNet', 'Sections', 'Circuit'])
     w = core.Work(PID)
     violations = []
     try:
@@ -613,7 +661,7 @@ def run(tier='quick', replay=None):
                 res.obligations += 1
         obl_files = {}     # file -> names
         if base_ok.get('C07lem.v'):
-            for f in ('C07.v', 'C07simp.v', 'C07net.v'):
+            for f in ('C07.v', 'C07simp.v'):
                 p = os.path.join(core.VERIF, 'coq', 'props', f)
                 if os.path.exists(p):
                     texts[f] = open(p).read()
@@ -646,21 +694,35 @@ def run(tier='quick', replay=None):
         if bad:
             res.failed_obl.append(('gate', 'props', '; '.join(bad)))
             res.obligations += 1
+        if replay and 'case' in replay:
+            obl_files = {}
         log('coqc %d obligation files' % len(obl_files))
         r2 = core.coqc_many(w.dir, list(obl_files), timeout=900 if tier == 'quick' else 2400)
         res.coq_results(w.dir, r2, {f: texts[f] for f in r2})
         guard_ok = all(r2.get('C07_guard_%s.v' % c, (False,))[0] for c in (otr.order if otr else []))
-        if otr is not None and base_ok.get('C07lem.v'):
+        if otr is not None and base_ok.get('C07lem.v') and not (replay and 'case' in replay):
+            stage3 = []
             names, txt = c07gen.guard_all_file(otr)
             texts['C07_guard_all.v'] = txt
             if guard_ok:
                 w.write('C07_guard_all.v', txt)
-                r3 = core.coqc_many(w.dir, ['C07_guard_all.v'], timeout=300)
-                res.coq_results(w.dir, r3, {'C07_guard_all.v': txt})
+                stage3.append('C07_guard_all.v')
             else:
                 res.obligations += len(names)
                 for n_ in names:
                     res.failed_obl.append((n_, 'C07_guard_all.v', 'not checked: a per-class guard obligation failed'))
+            # the netlist route: needs the leaf lemmas of C07.v and the emitters of C07model.v
+            texts['C07net.v'] = open(os.path.join(core.VERIF, 'coq', 'props', 'C07net.v')).read()
+            if r2.get('C07.v', (False,))[0] and base_ok.get('C07model.v'):
+                w.write('C07net.v', texts['C07net.v'])
+                stage3.append('C07net.v')
+            else:
+                nn = core.obligations_in(texts['C07net.v'])
+                res.obligations += len(nn)
+                res.failed_obl.append(('C07_netlist_of_tree_sem', 'C07net.v', 'not checked: a prerequisite file failed'))
+            if stage3:
+                r3 = core.coqc_many(w.dir, stage3, timeout=600)
+                res.coq_results(w.dir, r3, {f: texts[f] for f in stage3})
         # theory obligations are checked by the setup build; count them
         for f in ('OnePort.v', 'Sections.v', 'OnePortNet.v'):
             p = os.path.join(core.COQ_THEORY, f)
@@ -719,9 +781,9 @@ def run(tier='quick', replay=None):
             cases.append({'mode': 'twoport', 'tp': tp_to_impl(P), 's0': fs(s0), 'timeout': 60,
                           'kinds': 'ABZY' if i % 3 else 'ABZYHG', 'netkinds': rng.choice(['B', 'A', 'Z', 'AB', 'BY', 'BH', 'AG'])})
             meta.append({'kind': 'twoport', 'tp': P, 's0': s0, 'tag': 'random'})
-        if replay and 'case' in replay:
+        if replay and 'case' in replay and 'meta' in replay:
             cases = [replay['case']]
-            meta = [replay.get('meta', {'kind': replay['case'].get('mode'), 'tag': 'replay'})]
+            meta = [deser_meta(replay['meta'])]
         log('run impl on %d cases' % len(cases))
         wres = core.run_impl('impl_oneport.py', cases, timeout=1500 if tier == 'quick' else 7200)
         log('impl done')
@@ -938,7 +1000,19 @@ def run(tier='quick', replay=None):
         # ---- 6. decide -------------------------------------------------------------------------------
         by_key = {}
         for ce in res.counterexamples:
+            if 'case' in ce and ce['case'] in cases:
+                ce.setdefault('meta', ser_meta(meta[cases.index(ce['case'])]))
             by_key.setdefault(ce['key'], ce)
+        if replay and 'case' in replay:
+            for ci, (c, r) in enumerate(zip(cases, wres)):
+                print('REPLAY case=%s' % json.dumps(c))
+                print('REPLAY implementation=%s' % json.dumps(r)[:1500])
+                m = meta[ci]
+                if m.get('kind') == 'oneport':
+                    print('REPLAY textbook=%s' % json.dumps({k: (fs(v) if v is not None else None) for k, v in tb_values(m['tree']).items()}))
+                elif m.get('kind') == 'twoport':
+                    print('REPLAY textbook_B=%s' % [fs(x) for x in tb_B(m['tp'])])
+                print('REPLAY model_disagreements=%s' % [labels[g][0] for g in failing if labels[g][1] == ci])
         for k, ce in by_key.items():
             v = dict(ce)
             v.update({'key': k, 'what': 'network algebra and netlist analysis disagree: ' + k, 'found_input': True,
@@ -965,6 +1039,7 @@ def run(tier='quick', replay=None):
             seen.add(k)
             violations.append({'key': k, 'what': 'hand model / translation and the real code differ on ' + d['check'],
                                'case': d['case'], 'lcapy': d['lcapy'], 'found_input': False,
+                               'meta': ser_meta(meta[cases.index(d['case'])]) if d['case'] in cases else None,
                                'correspondence': 'Gen.C07model / Gen.OnePortGen / Gen.SectionsGen vs lcapy (%s)' % d['check']})
         return core.finish(res, violations)
     finally:
